@@ -152,6 +152,13 @@ func CalcExitPool(
 		weightBreakingFee := GetWeightBreakingFee(finalWeightIn, finalWeightOut, targetWeightIn, targetWeightOut, initialWeightIn, initialWeightOut, distanceDiff, params)
 
 		tokenOutAmount := oracleOutAmount.Mul(sdkmath.LegacyOneDec().Sub(weightBreakingFee)).RoundInt()
+		// as in the all-asset form below, an exit must not take the whole reserve of an asset: the
+		// accounted balances checked above can be larger than the pool's real reserve, and a payout of
+		// exactly the reserve would leave the pool's record of that asset stale (a zero coin is
+		// dropped from the new liquidity before the record is updated)
+		if tokenOutAmount.GTE(poolLiquidity.AmountOf(tokenOutDenom)) {
+			return sdk.Coins{}, sdkmath.LegacyZeroDec(), errors.New("too many shares out")
+		}
 		return sdk.Coins{sdk.NewCoin(tokenOutDenom, tokenOutAmount)}, weightBreakingFee.Neg(), nil
 	}
 
